@@ -23,7 +23,7 @@ STREAMS["versions"] = {
 }
 
 _BUILDER_ASSUME = [
-    "modelled, not verified: caller callbacks (fetcher, registry client, dependency finders) as total functions of a scripted world; the prepared content of a package is an abstract identity standing for the dirhash-derived directory name (SHA-256 collision freedom is not claimed; only equality patterns are compared); sync.Mutex as atomicity of each Add call; of the manifest, the package section is modelled (Bundle/ManifestRT.v write_packages, compared with every manifest the real Close writes in the reopen stream: the model of writeManifest applied to what the model's OpenDir reads must reproduce the section, order included); its registry section, encoding/json and the file are outside the model",
+    "modelled, not verified: caller callbacks (fetcher, registry client, dependency finders) as total functions of a scripted world; the prepared content of a package is an abstract identity standing for the dirhash-derived directory name (SHA-256 collision freedom is not claimed; only equality patterns are compared); sync.Mutex as atomicity of each Add call; of the manifest, the package section is modelled (Bundle/ManifestRT.v write_packages, compared with every manifest the real Close writes in the reopen stream: the model of writeManifest applied to what the model's OpenDir reads must reproduce the section, order included); the registry section is covered on the reading side for every grouping and order (C09_registry_section_read_back) but how writeManifest groups it is not modelled; encoding/json and the file are outside the model",
     "version selection uses go-versions as restated in Bundle/Versions.v (validated by the versions stream)",
 ]
 
@@ -158,7 +158,7 @@ PROPS = {
     },
     "C09": {
         "streams": ["reopen", "manifest", "pack", "unpack"],
-        "theorems": "C09_what_close_writes_open_reads (Bundle/ManifestRT.v: for every directory table that is a map whose package addresses print to text that parses back to them (C06) and whose directory names are plain ASCII names, and every metadata table, the document writeManifest writes - one record per package, sorted by printed address - is accepted by OpenDir and the opened bundle knows exactly the builder's packages, directories and metadata, an entry that carries nothing coming back as none; also for the records in any other order; C09_close_open_instance), C09_reopen_is_a_function_of_the_manifest, C09_root_independent (accessors of open_dir do not depend on the root; forward lookups are the root followed by the same relative components; reverse lookups of corresponding paths agree), C09_reverse_choice_is_deterministic, C09_reverse_lookup_visiting_order_irrelevant (the reverse lookup walks a Go map in no fixed order: its choice is the minimum of a strict total order on printed addresses, so every visiting order gives the same answer; Bundle/BestKey.v), C09_version_visiting_order_irrelevant (the versions object of a registry entry is decoded into a Go map and visited in no fixed order: every permutation of its members gives the same map of source addresses and deprecation notes, or is refused alike); the archive leg composes C02 (pack/unpack round trip: PARTIAL there) with these",
+        "theorems": "C09_what_close_writes_open_reads (Bundle/ManifestRT.v: for every directory table that is a map whose package addresses print to text that parses back to them (C06) and whose directory names are plain ASCII names, and every metadata table, the document writeManifest writes - one record per package, sorted by printed address - is accepted by OpenDir and the opened bundle knows exactly the builder's packages, directories and metadata, an entry that carries nothing coming back as none; also for the records in any other order; C09_close_open_instance), C09_registry_section_read_back + C09_written_registry_read_back (the registry section: every section whose records parse and whose bindings are exactly the entries of the builder's two registry tables - in any order, grouped by package or not - is read back as those tables: same registry packages, versions, source addresses, deprecation notes; such a section exists whenever the printed forms parse back), C09_reopen_is_a_function_of_the_manifest, C09_root_independent (accessors of open_dir do not depend on the root; forward lookups are the root followed by the same relative components; reverse lookups of corresponding paths agree), C09_reverse_choice_is_deterministic, C09_reverse_lookup_visiting_order_irrelevant (the reverse lookup walks a Go map in no fixed order: its choice is the minimum of a strict total order on printed addresses, so every visiting order gives the same answer; Bundle/BestKey.v), C09_version_visiting_order_irrelevant (the versions object of a registry entry is decoded into a Go map and visited in no fixed order: every permutation of its members gives the same map of source addresses and deprecation notes, or is refused alike); the archive leg composes C02 (pack/unpack round trip: PARTIAL there) with these",
         "assumptions": _ADDR_ASSUME + _PACK_ASSUME + ["modelled, not verified: encoding/json (MarshalIndent / Unmarshal of the manifest), crypto/sha256 (checksum compared on the implementation only), dirhash; partial: 'the same files after WriteArchive + ExtractArchive' rests on C02's round trip, which is proved piecewise and decided per run by packing, extracting and comparing the trees of real bundles; file times are compared to the archive's one-second resolution"],
     },
     "C10": {
